@@ -13,6 +13,7 @@ LINES_PER_OP = {
     "SchedDriver": lambda op: 1,
     "KvsmDriver": lambda op: 1,
     "FsDriver": lambda op: 1,
+    "ElectDriver": lambda op: 1,
     "JepsenDriver": lambda op: len(op.get("events", [])) + 1,
 }
 
@@ -78,6 +79,13 @@ CHECKS = {
                      "args": {"quick": ["-n", "8", "-synth", "300"], "thorough": ["-n", "120", "-synth", "6000"]}}],
         "rule": "(A) the real lcm Coordinator (scheduleProcesses through the hook, 25 rounds) with 1..40 or 1000..2000 processes against fake Drummer + NodehostAPI gRPC services on loopback implementing a linearizable register with injected latencies (0..7 ms before and after the effect) and failures (never / 1 in 30 / 1 in 8; a failed write may or may not have taken effect): the recorded history must be well formed (one outstanding operation per process, invocation before completion, written values unique and increasing, no operation after a failure), survive SaveAsJepsenLog + ParseJepsenLog with all operations, and be accepted by the bundled checker (skipped when concurrent + never-completed operations > 12: the search is exponential); (B) synthetic event lists the recorder can emit with process ids around 10 / 1000 / 10000 and up to 3000, reads of nothing, failed reads and writes: every log line and the parsed history are compared with the Lean model; evaluations = coordinator runs + log round trips",
         "assumptions": ["Go memory model for sync/atomic and the mutex (preemption is modelled at the granularity of those operations)", "gRPC / loopback TCP"],
+    },
+    "C14": {
+        "lean": ["DrummerVerif.Props.C14"],
+        "streams": [{"cmd": "elect", "driver": "ElectDriver", "sections": None, "eval_re": r"^case:", "timeout": 1500,
+                     "args": {"quick": ["-n", "40"], "thorough": ["-n", "1500"]}}],
+        "rule": "2..5 hook-built election managers (no ticker goroutine) on a real in-process single-replica NodeHost running the real Drummer DB; per sequence: phase 1 = 6..25 rounds of arbitrary schedules (random order, one round in four a random multiset of servers, servers pausing for 3..10 turns, one turn in 15 with a cancelled context so that every DB operation of the turn fails); phase 2 = 12 round-fair rounds without failures (a leader emerges and renews); phase 3 = the holder stops taking turns, the others continue round-fairly for 10 rounds; after every turn the election record and every manager's view are compared with the Lean model; evaluations = turns, non-trivial = sequences",
+        "assumptions": ["dragonboat SyncPropose / SyncRead are linearizable (one atomic DB operation per call)", "turn-level atomicity: interleavings of DB operations INSIDE two concurrent turns are not driven by this harness (PARTIAL, see level note)"],
     },
     "C06": {
         "lean": ["DrummerVerif.Props.C06"],
